@@ -170,7 +170,7 @@ class Ctx:
         m = re.search(r"Invariant (\S+) is violated", out)
         if m:
             res["invariant"] = m.group(1)
-            ls = re.findall(r"^/\\ l = (\d+)", out, re.M)
+            ls = re.findall(r"^(?:/\\ )?l = (\d+)", out, re.M)
             if ls:
                 res["line"] = int(ls[-1]) - 1
             return res
@@ -228,7 +228,7 @@ class Ctx:
         self.violations.append((what, path))
 
     def known(self):
-        p = os.path.join(VERIF, "known_findings.json")
+        p = os.environ.get("VERIF_KNOWN") or os.path.join(VERIF, "known_findings.json")
         if not os.path.exists(p):
             return []
         with open(p) as fh:
